@@ -1,6 +1,7 @@
 package router
 
 import (
+	"github.com/smart-core-os/sc-golang/internal/verifhook"
 	"sync"
 
 	"google.golang.org/grpc/codes"
@@ -106,6 +107,7 @@ func (r *router) Get(name string) (child any, err error) {
 	if !exists {
 		child, exists, err = invoke(name, r.factory)
 		if exists {
+			verifhook.Yield("router.Get:before-commit")
 			r.mu.Lock()
 			// check again
 			var newChildRemembered bool
